@@ -23,6 +23,8 @@ func init() {
 		Rule{ID: "R12d", Doc: "ECS gating and encoding", Floor: 14, Run: r12d},
 		Rule{ID: "R09b", Doc: "Msg.Pack re-appends the popped OPT on every successful return (a response to an EDNS0 client keeps its OPT; shared with C09)", Floor: 14, AllVariants: true, Run: r09b},
 		Rule{ID: "R20g", Doc: "a raw record returned to its pool is reset completely: the OPT the proxy builds from a pooled record carries no stale TTL/flags (shared with C20)", Floor: 12, Run: r20g},
+		Rule{ID: "R12e", Doc: "PopEDNS0 is a correct swap-remove (no nil record left, nothing after the OPT dropped)", Floor: 5, AllVariants: true, Run: r12e},
+		Rule{ID: "R12f", Doc: "parameters named remoteAddr receive the peer address (ECS, client group, prefetch key)", Floor: 6, Run: r12f},
 	)
 }
 
